@@ -448,7 +448,7 @@ func (tf *transformer) transformAsm(args []string) ([]string, error) {
 						return nil, err
 					}
 					if flagDebugDir != "" {
-						debugArtifacts.GarbledFiles[basename] = content
+						debugArtifacts.GarbledFiles[basename] = bytes.Clone(content) // content aliases includeBuf, which is reused
 					}
 					newHeaderPaths[includePath] = newPath
 				}
@@ -486,7 +486,7 @@ func (tf *transformer) transformAsm(args []string) ([]string, error) {
 			newPaths = append(newPaths, path)
 		}
 		if flagDebugDir != "" {
-			debugArtifacts.GarbledFiles[basename] = content
+			debugArtifacts.GarbledFiles[basename] = bytes.Clone(content) // content aliases buf, which is reused
 		}
 	}
 	if err := saveDebugArtifactsForPkg(tf.curPkg, debugCacheKindAsm, debugArtifacts); err != nil {
@@ -862,7 +862,7 @@ func (tf *transformer) transformCompile(args []string) ([]string, error) {
 			newPaths = append(newPaths, path)
 		}
 		if flagDebugDir != "" {
-			debugArtifacts.GarbledFiles[basename] = src
+			debugArtifacts.GarbledFiles[basename] = bytes.Clone(src) // src aliases a buffer which printFile reuses
 		}
 	}
 	if tf.curPkg.ImportPath == "runtime" && flagTiny {
